@@ -226,6 +226,14 @@ def check_element_point(cls, vals, freqs, st, mx, viol, use_sympy, core):
                 mx["rel_sympy:" + sym] = max(mx.get("rel_sympy:" + sym, 0.0), r2)
                 st["sympy_points"] = st.get("sympy_points", 0) + 1
                 if r2 > RTOL:
+                    try:
+                        zp = complex(expr.subs("f", f * (1 + 1e-9)).evalf(30))
+                        if abs(z - zs) <= 10 * abs(zp - zs):
+                            st["ill_conditioned_points"] = st.get("ill_conditioned_points", 0) + 1
+                            continue
+                    except Exception:
+                        pass
+                if r2 > RTOL:
                     bad(f"C02/numeric-vs-substituted-sympy:{sym}", f"numeric {z} vs to_sympy(substitute=True) {zs} (rel {r2:.2e})", f)
                     break
     return n
@@ -235,12 +243,17 @@ def check_element_point(cls, vals, freqs, st, mx, viol, use_sympy, core):
 # limits
 # ------------------------------------------------------------------------------------------------
 def check_limits(obj, label, st, mx, viol, witness, budget=None):
-    """obj: element or circuit with get_impedances.  Where a limit value L is RETURNED it must be the continuous
-    extension of the finite-frequency values.  Refuting observation: along probes approaching the limit frequency Z(f)
-    has visibly converged (|Z5 - Z3| <= 0.1*|Z5 - L|) to something that is not L (|Z5 - L| > 1e-6*scale), or Z(f) runs
-    away from a finite reported L (|Z5 - L| >= 10*|Z3 - L|)."""
+    """obj: element or circuit.  Where get_impedances([0.0]) / [inf] RETURNS a value L it must be the continuous
+    extension of the finite-frequency values.  Oracle: the documented expression (to_sympy(substitute=True), which the
+    other clauses tie to the numeric values) is evaluated with 60-digit arithmetic at f = 1e-3000 resp. 1e+3000 Hz - far
+    enough out for every power law with |exponent| >= 0.01 to have converged to 1e-30 - and must equal L within 1e-6.
+    (A finite probe window cannot be sound: a blocking element with exponent 0.05 is still 13x away from its limit at
+    1e-15 Hz.)  Raising instead of reporting a limit is allowed; a budget that fires skips the probe."""
+    import sympy
+
     budget = budget or BUDGET["limit"]
-    for which, lim_f, probes in (("zero", 0.0, [1e-3, 1e-6, 1e-9, 1e-12, 1e-15]), ("inf", float("inf"), [1e6, 1e9, 1e12, 1e15, 1e18])):
+    expr = None
+    for which, lim_f, far in (("zero", 0.0, "1e-3000"), ("inf", float("inf"), "1e+3000")):
         try:
             with time_limit(budget):
                 with np.errstate(all="ignore"):
@@ -254,20 +267,39 @@ def check_limits(obj, label, st, mx, viol, witness, budget=None):
         if not (math.isfinite(L.real) and math.isfinite(L.imag)):
             continue
         try:
-            with np.errstate(all="ignore"):
-                zs = [complex(z) for z in obj.get_impedances(np.array(probes))]
+            with time_limit(BUDGET["sympy"]):
+                if expr is None:
+                    expr = obj.to_sympy(substitute=True)
+                zf = expr.subs("f", sympy.Float(far, 60)).evalf(60)
+                re_, im_ = zf.as_real_imag()
+                mag = abs(zf)
+                if mag.is_finite is False or mag == sympy.zoo or mag.has(sympy.nan):
+                    raise ValueError("non-finite")
+                far_abs = float(sympy.log(mag + sympy.Float("1e-4000", 60), 10))  # log10 |Z_far| (safe for huge/small)
+                diff = abs(zf - (sympy.Float(L.real, 60) + sympy.I * sympy.Float(L.imag, 60)))
+                diff_log = float(sympy.log(diff + sympy.Float("1e-4000", 60), 10))
+        except _Budget:
+            st[f"limit_{which}_budget"] = st.get(f"limit_{which}_budget", 0) + 1
+            continue
         except Exception:
-            st[f"limit_{which}_probe_refused"] = st.get(f"limit_{which}_probe_refused", 0) + 1
+            st[f"limit_{which}_far_eval_refused"] = st.get(f"limit_{which}_far_eval_refused", 0) + 1
             continue
         st[f"limit_{which}_checked"] = st.get(f"limit_{which}_checked", 0) + 1
-        e3, e5 = abs(zs[2] - L), abs(zs[4] - L)
-        scale = max(abs(L), abs(zs[2]), 1e-300)
-        converged_elsewhere = e5 > 1e-6 * scale and abs(zs[4] - zs[2]) <= 0.1 * e5
-        runs_away = e5 > 1e-6 * scale and e5 >= 10 * e3 and e3 > 0
-        mx[f"limit_{which}_final_relerr"] = max(mx.get(f"limit_{which}_final_relerr", 0.0), e5 / scale)
-        if converged_elsewhere or runs_away:
+        # scale: |L| if non-zero, else the magnitude at a moderate frequency
+        if abs(L) > 0:
+            scale_log = math.log10(abs(L))
+        else:
+            try:
+                with np.errstate(all="ignore"):
+                    zmid = complex(obj.get_impedances(np.array([1.0]))[0])
+                scale_log = math.log10(max(abs(zmid), 1e-300))
+            except Exception:
+                scale_log = 0.0
+        rel_log = diff_log - scale_log
+        mx[f"limit_{which}_log10_relerr"] = max(mx.get(f"limit_{which}_log10_relerr", -4000.0), rel_log)
+        if rel_log > -6.0:
             viol.append({"key": f"C02/limit-not-continuous:{which}:{label.split(' ')[0]}",
-                         "msg": f"{label}: reported f->{which} limit {L} but Z along {probes} is {zs} ({'converges elsewhere' if converged_elsewhere else 'runs away'})",
+                         "msg": f"{label}: reported f->{which} limit {L}, but the documented expression at f={far} Hz is 10^{far_abs:.1f} in modulus and differs from the reported limit by 10^{diff_log:.1f} (relative 10^{rel_log:.1f})",
                          "witness": witness})
 
 
@@ -349,6 +381,15 @@ def check_circuit(circuit, label, freqs, st, mx, viol, witness, expect_refusal=N
         mx["rel_circuit"] = max(mx.get("rel_circuit", 0.0), r)
         st["circuit_points"] = st.get("circuit_points", 0) + 1
         if r > RTOL:
+            # conditioning allowance: sensitivity of the symbolic value itself to a 1e-9 relative change of f
+            try:
+                with time_limit(BUDGET["sympy"]):
+                    zp = complex(expr.subs("f", f * (1 + 1e-9)).evalf(30))
+                if abs(complex(z) - zs) <= 10 * abs(zp - zs):
+                    st["ill_conditioned_points"] = st.get("ill_conditioned_points", 0) + 1
+                    continue
+            except (_Budget, Exception):
+                pass
             bad("C02/circuit-numeric-vs-symbolic", f"f={f:g}: numeric {complex(z)} vs symbolic {zs} (rel {r:.2e})")
             return
 
@@ -463,7 +504,7 @@ def run_case(case):
                 continue
             w = {"cdc": text, "replay_case": {"kind": "cdc", "cdc": text}}
             check_circuit(c, text[:200], [0.02, 3.3, 510.0, 7.7e4], st, mx, viol, w)
-            slow_decay = any(0.9 < G.dec(e["p"][k][0]) < 1.0 for e in G.iter_elements(t) for k in e["p"] if k in G.EXPONENT_KEYS)
+            slow_decay = any((0.97 < G.dec(e["p"][k][0]) < 1.0 or G.dec(e["p"][k][0]) < 0.03) for e in G.iter_elements(t) for k in e["p"] if k in G.EXPONENT_KEYS)
             if j == 0 and n <= 3 and not slow_decay:
                 check_limits(c, "circuit " + G.brief(G.nf(t)), st, mx, viol, w)
             evals += 1
@@ -477,8 +518,8 @@ def run_case(case):
                     try:
                         sv = _sample_values(rng, cls, core=True)
                         for pk in sv:
-                            if pk in G.EXPONENT_KEYS and 0.9 < sv[pk] < 1.0:
-                                sv[pk] = 0.9  # keep power-law decays fast enough to be visible in the probe window
+                            if pk in G.EXPONENT_KEYS and 0.97 < sv[pk] < 1.0:
+                                sv[pk] = 0.97  # power laws with |exponent| < 0.01 have not converged even at 1e+-3000 Hz
                         e.set_values(**sv)
                     except Exception:
                         continue
